@@ -35,6 +35,14 @@ FAMILIES = {
         "n": {"quick": 24, "thorough": 400},
         "shard": 2, "procs": 4,
     },
+    "sched": {
+        "family": "sched",
+        "coq_modules": ["Feed"],
+        "in_type": "list action", "obs_type": "sched_obs",
+        "corr": "sched_corr_ok", "chk": "sched_chk_excused", "strict_chk": "sched_chk_strict", "model": "sched_model",
+        "n": {"quick": 60, "thorough": 1200},
+        "shard": 8, "procs": 4, "shrink_key": "acts",
+    },
     "ttl": {
         "family": "ttl",
         "coq_modules": ["Json", "Crc", "Hlc", "Kv", "Store", "Trace", "Corr"],
@@ -82,8 +90,8 @@ PROPS = {
     "C05": _kv("C05", "Full proof on the model: in every reachable store the tombstone column equals 'value IS NULL' (C05_flag_iff_nobody), and every history is accepted by the checker: deletion opcode iff no body, Delete/Remove keep exactly the system xattrs and clear the expiry, a body write onto a body-less key leaves only the supplied xattrs (C05_holds); PurgeTombstones removes exactly the body-less rows (C05_purge, on the store; its trace-level check is validated on model traces by evaluation).", model_chk=True),
     "C06": _kv("C06", "Full proof on the model: for every history an insert-style write (Add, AddRaw, WriteCas AddOnly / cas 0, WriteResurrectionWithXattrs) succeeds only on a key without a body and a refusal happens only on a key with a body and leaves it untouched; WriteWithXattrs cas 0 succeeds only on an absent key (C06_holds)."),
     "C07": _kv("C07", "Full proof on the model: an xattr-only write changes exactly the named xattrs and keeps body, datatype and (unless given) expiry; a body-only write to a live document keeps its xattrs; a failed call changes nothing (C07_holds; frame lemmas over apply_xattrs / xattrs_remove for all xattr maps and name lists). Macro expansion values are compared exactly by the correspondence (CAS string and CRC32c computed in Coq)."),
-    "C08": _kv("C08", "Sequential part proved in full on the model: every successful CAS-stamping call posts exactly one event equal to the rendering of the document as stored (key, opcode, body, xattrs, datatype bits, CAS, expiry, revision), every failed/refused call and every touch posts none (C08_holds, all histories). CAS order of delivery under concurrent writers is part of the interleaving model (partial)."),
-    "C09": _kv("C09", "Sequential part proved on the model's store: the backfill of a feed started from CAS s is, in CAS order, exactly the current version of every document of the collection (tombstones included) with CAS >= s (C09_complete, C09_sorted, C09_from_start, for every reachable store: C09_tables_ok), each rendered by the same function as live events (C09_same_rendering, C09_live_equals_stored). The executable trace checker (dump feeds from generated start CAS values: 0, a document's CAS, CAS+1, stale, beyond) is evaluated on implementation traces and on the model's traces; that it accepts every model trace is checked by evaluation, not proved. The no-gap half (StartDCPFeed racing writers) is not proved here: partial.", model_chk=True),
+    "C08": _kv("C08", "Sequential part proved in full on the model: every successful CAS-stamping call posts exactly one event equal to the rendering of the document as stored (key, opcode, body, xattrs, datatype bits, CAS, expiry, revision), every failed/refused call and every touch posts none (C08_holds, all histories). Ordering part: Feed.v splits a write into Commit / Snapshot / Push and a feed into Backfill / Register / Deliver / Stop as the code does; the full statement (every interleaving keeps CAS order) is REFUTED on the faithful model with a replayable witness (C08_order_refuted: the known finding KF-C08-order, reproduced on the code by the sched family through the cas.beforePost / post.snapshot hooks), and every schedule outside that window is checked: the sched family executes generated action lists on the real code under the hooks and compares deliveries, CAS values and checkpoints exactly with the model.", extra=[{"family": "sched", "chk": "sched_excused_C08", "strict_chk": "sched_strict_C08"}]),
+    "C09": _kv("C09", "Sequential part proved on the model's store: the backfill of a feed started from CAS s is, in CAS order, exactly the current version of every document of the collection (tombstones included) with CAS >= s (C09_complete, C09_sorted, C09_from_start, for every reachable store: C09_tables_ok), each rendered by the same function as live events (C09_same_rendering, C09_live_equals_stored). The executable trace checker (dump feeds from generated start CAS values: 0, a document's CAS, CAS+1, stale, beyond) is evaluated on implementation traces and on the model's traces; that it accepts every model trace is checked by evaluation, not proved. No-gap half: the full statement is REFUTED on the faithful interleaving model Feed.v with a replayable witness (C09_gap_refuted: the known finding KF-C09-gap, a write committing between the backfill query and registration that reads the feed list before registration), reproduced on the code by the sched family through the feed.preregister / post.snapshot hooks; every schedule outside that window (e.g. a write that commits in the window but posts after registration) is compared exactly with the model: partial.", model_chk=True, extra=[{"family": "sched", "chk": "sched_excused_C09", "strict_chk": "sched_strict_C09"}]),
     "C11": _kv("C11", "Proved on the model's store for every reachable store and every entry point: a call addressed to collection c leaves documents, backfill, identity and feeds of every other collection unchanged (C11_frame); DropDataStore removes exactly the collection's rows and entry (C11_drop); re-creation yields a fresh id with no documents (C11_recreate). Views and SQL queries of other collections are covered under C12/C19 models. The executable trace checker is evaluated on implementation and model traces (acceptance of model traces checked by evaluation).", model_chk=True),
     "C18": _kv("C18", "Proved on Json.v for all documents, paths and values: a sub-document write leaves every property on a diverging path unchanged (C18_frame), the addressed property reads back as the written value (C18_set) or as absent after removal (C18_remove); CAS honoured / failure changes nothing is the C02 theorem (C18_cas). The trace checker restates WriteSubDoc/SubdocInsert/GetSubDocRaw as upsert_path/eval_path over the parsed read-back and is evaluated on implementation and model traces (acceptance of model traces checked by evaluation). The concurrent no-lost-update half is part of the interleaving model: partial.", model_chk=True),
     "C13": {
@@ -100,6 +108,12 @@ PROPS = {
     },
     "C19": _kv("C19", "Proved on the model's store, for every reachable store: the $_keyspace sub-query of a collection ranges over exactly the documents of that collection that have a body, with their current id, body and xattrs (C19_keyspace_is_live_docs), each once (C19_each_once); ORDER BY neither drops nor invents rows. A family of eight statements (ids, hex bodies, count, id filter, body-property filter, xattr-property filter, xattr projection, DESC/LIMIT) is evaluated in the model and compared exactly, row text for row text, with Collection.Query on in-memory (pre-recorded iterator) and on-disk (streaming iterator) buckets after arbitrary histories over three collections; the trace checker re-evaluates each query over the key-value read-back of the collection (acceptance of model traces checked by evaluation). SQLite's evaluator (json_valid, ->>, hex, ORDER BY, LIMIT) is modelled by eval_query, not verified.", model_chk=True),
     "C12": _kv("C12", "Model of views.go/designdoc.go in Store.v: design documents, views.lastCas vs the collection's lastCas, incremental updateView (delete rows of documents with cas > views.lastCas, re-map them), cascade on purge/drop, JSON collation, startkey/endkey/inclusive_end/key/limit/descending, four JavaScript map functions with Gallina twins. The executable checker states the property directly - a non-stale query equals the map function applied to the key-value read-back of the collection's current documents, collated and filtered - and is evaluated on implementation traces and on the model's traces (PROOF STATUS: acceptance of model traces is checked by evaluation on every run; the invariant proof 'every document is correctly indexed or pending re-mapping' is in progress, see DESIGN.md). View queries are placed anywhere in histories with deletes, resurrections, xattr-only writes, purges, WithMeta writes, design-document replacement through another handle, collection drop and reopen; results are compared exactly with the model. otto (JavaScript), SQLite's ORDER BY with the JSON collation and sg-bucket's ProcessParsed are modelled, not verified; reduce/group and keys=[...] are outside the modelled subset.", model_chk=True),
+    "C15": {
+        "families": [{"family": "sched", "chk": "sched_excused_C15", "strict_chk": "sched_strict_C15"}],
+        "level_text": "Partial. Feed.v models checkpointed feeds action by action (backfill from the persisted checkpoint + 1, registration, one callback at a time, terminator: the event already pulled is still delivered, the rest of the queue is discarded, the checkpoint document is written with the highest delivered CAS and is itself a mutation posted to the other feeds). The persisted checkpoint never exceeds a delivered CAS in any schedule (checked on every trace). The full completeness statement (every stop/restart placement, every interleaving with writers) is REFUTED on the faithful model with replayable witnesses (C15_skip_refuted: consequence of the known findings KF-C08-order and KF-C09-gap); outside those windows the sched family executes generated schedules of writers, stops (also with events still queued and writers mid-post) and resumes on the real code under the hooks and compares every delivery, CAS and checkpoint exactly with the model, and the union of the runs must contain every document.",
+        "level_note": "Schedules are generated (valid action lists over 2-4 writers and 1-2 feed names, in-memory and on-disk); atomicity of each action (transaction, postEvent's list read, queue push, callback) is assumed from the Go code. Trusted: Coq kernel + vm_compute, Go harness and its hook scheduler.",
+        "assumptions": ["each action of Feed.v is atomic in the code (the hooks sit between them)", "the HLC on a constant clock hands out base+1, base+2, ... (exact CAS comparison)", "feeds use CheckpointPrefix 'cp'; Dump feeds are covered by C09's sequential part"],
+    },
     "C17": _kv("C17", "Full proof on the model: every successful mutation through any entry point raises the key's revision number by exactly one (1 on creation or re-creation after purge), failed calls leave it, and live events carry the stored number (C17_holds, all histories)."),
     "C03": {
         "families": [{"family": "lin"}],
